@@ -226,9 +226,10 @@ def jobs(tier):
                                 max_wall_s=wall, weight=3))
             else:
                 # 3 calls with a direct breaker operation after each call
-                out.append(dict(name=f"policy+direct:retry={retry}:call0={KINDS[c0]}", harness="rv.props.c07:h_policy",
-                                params=dict(retry=retry, calls=3, direct=True, pin_call0=c0, kinds_later=KINDS),
-                                max_wall_s=wall, weight=4))
+                for o0 in range(3):
+                    out.append(dict(name=f"policy+direct:retry={retry}:call0={KINDS[c0]}:{OUTS[o0]}", harness="rv.props.c07:h_policy",
+                                    params=dict(retry=retry, calls=3, direct=True, pin_call0=c0, pin_out0=o0, kinds_later=KINDS),
+                                    max_wall_s=wall, weight=6))
                 # 4 calls, split by the first call's kind and outcome
                 for o0 in range(3):
                     out.append(dict(name=f"policy4:retry={retry}:call0={KINDS[c0]}:{OUTS[o0]}", harness="rv.props.c07:h_policy",
